@@ -1,0 +1,28 @@
+//go:build verif
+
+package certs
+
+import (
+	"crypto/tls"
+	"time"
+)
+
+// VerifStoreExpired replaces the cached leaf of host by one whose validity ended `ago` before now,
+// as if that much time beyond the certificate lifetime had passed. Verification builds only.
+func (ca *PrivateCA) VerifStoreExpired(host string, ago time.Duration) error {
+	pemCert, pemKey, err := ca.createCert([]string{host}, 1)
+	if err != nil {
+		return err
+	}
+	tlsCert, err := tls.X509KeyPair(pemCert, pemKey)
+	if err != nil {
+		return err
+	}
+	// keep the certificate bytes; only the parsed leaf's validity (which GetCertForHost consults) is moved
+	leaf := *tlsCert.Leaf
+	leaf.NotBefore = time.Now().Add(-ago - time.Hour)
+	leaf.NotAfter = time.Now().Add(-ago)
+	tlsCert.Leaf = &leaf
+	ca.certs.Set(host, &tlsCert)
+	return nil
+}
